@@ -106,8 +106,16 @@ int __wrap_idn2_to_ascii_8z(const char *input, char **output, int flags)
 /* ---------------------------------------------------------------- adapter ledger (C18) */
 #ifdef VERIF_IDN_ADAPTER
 extern long verif_idn_creates, verif_idn_destroys, verif_idn_live, verif_idn_bad_use, verif_idn_double_destroy,
-            verif_idn_encodes;
+            verif_idn_encodes, verif_idn_bad_actions;
 #endif
+
+/* VERIF_POISON=none leaves fresh eav_t memory uninitialised (memcheck definedness tracking) */
+static void poison(void *p, int byte, size_t n)
+{
+    static int mode = -2;
+    if (mode == -2) { const char *v = getenv("VERIF_POISON"); mode = (v && !strcmp(v, "none")) ? 1 : 0; }
+    if (!mode) memset(p, byte, n);
+}
 
 /* ---------------------------------------------------------------- pool */
 static char **pool = NULL; static size_t *pool_len = NULL; static int pool_n = 0;
@@ -151,7 +159,7 @@ static void run_history(char *line)
     char *tok, *save = NULL;
     int confirmed = -1, first = 1, default_allow;
     long base_live;
-    memset(e, 0xA5, sizeof *e);
+    poison(e, 0xA5, sizeof *e);
     g_stage = "eav_init";
     LIB(eav_init(e));
     default_allow = e->allow_tld;
@@ -188,7 +196,7 @@ static void run_history(char *line)
             printf(",%ld,%d,", led_live - base_live, expected_blocks(e));
             /* fresh-object differential with the model's settings */
             f = malloc(sizeof *f);
-            memset(f, 0x5A, sizeof *f);
+            poison(f, 0x5A, sizeof *f);
 #ifdef VERIF_WRAP_IDN2
             in_fresh = 1;
 #endif
@@ -221,7 +229,7 @@ static void run_history(char *line)
             g_stage = "eav_free";
             LIB(eav_free(e));
             printf("[\"f\",%ld]", led_live - base_live);
-            memset(e, 0x3C, sizeof *e);
+            poison(e, 0x3C, sizeof *e);
             g_stage = "eav_init";
             LIB(eav_init(e));
             confirmed = -1;
@@ -241,7 +249,7 @@ static void run_history(char *line)
     LIB(eav_free(e));
     printf(",[\"end\",%ld,%ld,%ld,%ld", led_live - base_live, led_mallocs, led_frees, led_foreign_frees);
 #ifdef VERIF_IDN_ADAPTER
-    printf(",%ld,%ld,%ld,%ld,%ld,%ld", verif_idn_creates, verif_idn_destroys, verif_idn_live, verif_idn_bad_use,
+    printf(",%ld,%ld,%ld,%ld,%ld,%ld", verif_idn_creates, verif_idn_destroys, verif_idn_live, verif_idn_bad_use + verif_idn_bad_actions * 1000000L,
            verif_idn_double_destroy, verif_idn_encodes);
 #else
     printf(",null,null,null,null,null,null");
